@@ -514,14 +514,22 @@ def key_parse(shape_name, shape):
             r.oblige(s, 'nothing-else-attached/p%d' % pi, z3.BoolVal(not extra))
             dropped = ['p%d%s' % (i, c) for i, c in enumerate(shape) if c in 'TOX']
             r.oblige(s, 'trust-and-unknown-packets-are-attached-nowhere/p%d' % pi, z3.BoolVal(not any(a[1] in dropped for a in att)))
-            # (4) one entry per primary key found, in order: this key first, then the further keys of the blob (the code's attempt to
-            # drop the entry of this key itself has no effect - recorded as an observation in DESIGN.md, harmless for C14)
-            nprim = shape.count('K') + shape.count('k')
+            # (4) one entry per distinct primary key (key id, half), the most recent object of each, ordered by its most recent
+            # occurrence (so that what follows a repeated key is filed under that key). The code's attempt to drop the entry of this
+            # key itself has no effect - recorded as an observation in DESIGN.md, harmless for C14.
+            import collections as _c
+            exp = _c.OrderedDict()
+            nk3 = 0
+            for i, c in enumerate(shape):
+                if isprim(c):
+                    obj = 'self' if nk3 == 0 else 'newkey%d' % (nk3 - 1)
+                    exp.pop((ident[i], c == 'K'), None)
+                    exp[(ident[i], c == 'K')] = obj
+                if isprim(c) or issub(c):
+                    nk3 += 1
             vals = [x for _, x in v.of(s)] if isinstance(v, E.VDict) else None
-            r.oblige(s, 'returns-one-entry-per-primary-key-in-order/p%d' % pi,
-                     z3.BoolVal(vals is not None and [str(x.ref) for x in vals] == ['self'] + ['newkey%d' % j for j in range(8)][:0] + [w for w in
-                                [('newkey%d' % j) for j in range(8)] if any(a == (w, 'p%d%s' % (i, shape[i])) for i in range(len(shape)) if shape[i] in 'Kk' for a in att)][:max(0, nprim - 1)]
-                                if nprim else vals == []))
+            r.oblige(s, 'returns-one-entry-per-distinct-primary-key,most-recent-object,ordered-by-last-occurrence/p%d' % pi,
+                     z3.BoolVal(vals is not None and [str(x.ref) for x in vals] == list(exp.values())))
         return r.result()
     return Scenario(label, KEY + '.parse', gen, props=('C14',))
 
@@ -532,5 +540,6 @@ _base_scn_kp2 = scenarios
 def scenarios():
     shapes = [('key with identities and subkeys', 'KSUSSASBSBS'), ('trust packets interleaved', 'KTUTSTBST'), ('two keys', 'KUSBSKUS'), ('two keys, subkey and second identity on the second', 'K1USK2USBSUS'),
               ('bare key', 'K'), ('unknown-version signature', 'KUSOSBS'), ('unknown packet', 'KUSXSBS'),
-              ('public keyring then the secret form of its first key', 'K1USB3SK2USk1USb3S')]
+              ('public keyring then the secret form of its first key', 'K1USB3SK2USk1USb3S'),
+              ('a key repeated after another one', 'K1USK2USK1USBS')]
     return _base_scn_kp2() + [key_parse(n, sh) for n, sh in shapes]
